@@ -117,6 +117,65 @@ class SimSignal(types.ModuleType):
 SIM_SIGNAL = SimSignal()
 
 
+class SimOS(types.ModuleType):
+    """`os` facade for the code under test: process identity and process control refer to the simulated
+    processes (they are threads of one OS process); everything else is the real module."""
+
+    def __init__(self):
+        super().__init__("os")
+        import os as _real
+
+        self._real = _real
+
+    def getpid(self):
+        w = simmp.WORLD
+        if w is None:
+            return self._real.getpid()
+        p = w.current_proc()
+        return getattr(p, "pid_", None) or 999
+
+    def getppid(self):
+        w = simmp.WORLD
+        if w is None:
+            return self._real.getppid()
+        return 999 if w.current_proc() is not w.parent else 1
+
+    def kill(self, pid, sig):
+        w = simmp.WORLD
+        if w is None:
+            raise SimUnsupported("os.kill outside a simulation")
+        sig = int(sig)
+        for p in w.procs:
+            if p.pid_ == pid:
+                w.seam(Op("os.kill%d" % sig, p.label))
+                if p.dead:
+                    if p.joined:
+                        raise ProcessLookupError(3, "No such process")
+                    return
+                if sig and sig not in p.pending_signals:
+                    p.pending_signals.append(sig)
+                return
+        raise SimUnsupported("os.kill of a process outside the simulation (pid %s)" % pid)
+
+    def _exit(self, code=0):
+        w = simmp.WORLD
+        if w is None or w.current_proc() is w.parent:
+            raise SimUnsupported("os._exit in the main process")
+        proc = w.current_proc()
+        w.seam(Op("os._exit", proc.label))
+        # leaves at once: no exit handlers, queue buffers are not flushed
+        w.kill_proc(proc, int(code) & 0xFF, "os._exit")
+        raise SimKilled()
+
+    def __getattr__(self, name):
+        if name in ("fork", "forkpty", "waitpid", "wait", "pipe", "abort", "execv", "execve", "spawnv", "posix_spawn", "killpg"):
+            raise SimUnsupported("os.%s" % name)
+        return getattr(self._real, name)
+
+
+SIM_OS = SimOS()
+
+
 def scan_imports(path):
     """Names of foreign concurrency modules imported anywhere in the file (module or function level)."""
     try:
@@ -138,7 +197,7 @@ def scan_imports(path):
                 pass
     # direct process control through os
     src = open(path).read()
-    for needle in ("os.fork", "os.kill", "os._exit", "os.waitpid", "os.pipe", "os.abort", "signal.alarm", "signal.setitimer",
+    for needle in ("os.fork", "os.waitpid", "os.pipe", "os.abort", "os.exec", "os.spawn", "os.killpg", "signal.alarm", "signal.setitimer",
                    "signal.pthread_", "signal.raise_signal", "signal.sigwait", "signal.pause"):
         if needle in src:
             bad.append(needle)
@@ -184,7 +243,7 @@ def load_realign(repo):
     _MOD_INFO["sha"] = h.hexdigest()[:16]
     fake, subs = simmp.make_module()
     _MOD_INFO["fake_mp"] = fake
-    saved = {k: v for k, v in sys.modules.items() if k == "multiprocessing" or k.startswith("multiprocessing.") or k in ("time", "signal")}
+    saved = {k: v for k, v in sys.modules.items() if k == "multiprocessing" or k.startswith("multiprocessing.") or k in ("time", "signal", "os")}
     for k in saved:
         del sys.modules[k]
     for k in [k for k in sys.modules if k == "gaftools" or k.startswith("gaftools.")]:
@@ -193,6 +252,7 @@ def load_realign(repo):
     sys.modules.update(subs)
     sys.modules["time"] = SIM_TIME
     sys.modules["signal"] = SIM_SIGNAL
+    sys.modules["os"] = SIM_OS
     try:
         import gaftools  # noqa: F811
         import gaftools.cli  # noqa: F811
@@ -204,7 +264,7 @@ def load_realign(repo):
         mod = importlib.import_module("gaftools.cli.realign")
     finally:
         for k in list(sys.modules):
-            if k == "multiprocessing" or k.startswith("multiprocessing.") or k in ("time", "signal"):
+            if k == "multiprocessing" or k.startswith("multiprocessing.") or k in ("time", "signal", "os"):
                 del sys.modules[k]
         sys.modules.update(saved)
     gaftools.timer.time = SIM_TIME
